@@ -246,15 +246,29 @@ def roundtrip_cases():
         for n, f in shapes.items():
             out.append(("ljson %dD %s" % (d, n), "ljson", "rt.ljson", f))
     out.append(("pts", "pts", "rt.pts", lambda: ms.PointCloud(np.array([[0.12345, 10.5], [3.0006, 2.9994], [7.25, 0.0]]))))
+    # coordinates of every magnitude an image can have (the three-decimal promise is absolute, not relative)
+    out.append(("pts large coordinates", "pts", "rt.big.pts", lambda: ms.PointCloud(np.array([[1234.5678, 0.0004], [10000.1234, 99999.9996], [512.0005, 2047.4994]]))))
+    # multi-dot file names for every format
+    out.append(("pts multi-dot name", "pts", "rt.v2.final.pts", lambda: ms.PointCloud(np.array([[0.5, 1.25], [2.0, 3.0], [4.0, 0.125]]))))
+    out.append(("ljson multi-dot name", "ljson", "rt.v2.final.ljson", lambda: ms.PointCloud(P2)))
     for name, family, factory in _instances():
         if name in ("LazyList",):
             continue
         out.append(("pickle " + name, "pkl", "rt.pkl", factory))
         out.append(("gz pickle " + name, "pklgz", "rt.pkl.gz", factory))
+        if name in ("PointCloud", "Image", "PCAModel"):
+            out.append(("pickle (multi-dot name) " + name, "pkl", "rt.v1.2024.pkl", factory))
+            out.append(("gz pickle (multi-dot name) " + name, "pklgz", "rt.v1.2024.pkl.gz", factory))
     lut = np.arange(256, dtype=np.uint8).reshape(16, 16)
     for ext in ("png", "bmp"):
         out.append(("L " + ext, ext, "rt." + ext, lambda: Image(lut[None].copy())))
         out.append(("RGB " + ext, ext, "rt." + ext, lambda: Image(np.stack([lut, lut[::-1], lut.T]).copy())))
+        out.append(("L multi-dot name " + ext, ext, "rt.v2.final." + ext, lambda: Image(lut[None].copy())))
+        # degenerate-but-legal shapes: a single row, a single column, a single pixel
+        for hh, ww in ((1, 7), (6, 1), (1, 1), (2, 3)):
+            blk = (np.arange(hh * ww * 3, dtype=np.uint8) * 9 + 3).reshape(3, hh, ww)
+            out.append(("L %dx%d %s" % (hh, ww, ext), ext, "rt." + ext, lambda blk=blk: Image(blk[:1].copy())))
+            out.append(("RGB %dx%d %s" % (hh, ww, ext), ext, "rt." + ext, lambda blk=blk: Image(blk.copy())))
     return out
 
 
